@@ -188,8 +188,8 @@ func (b *recBackend) GetCapabilities(ctx context.Context, in digest.InstanceName
 type fixture struct {
 	dirty bool
 	cfg   demuxCfg
-	ba  blobstore.BlobAccess
-	be  []*recBackend
+	ba    blobstore.BlobAccess
+	be    []*recBackend
 }
 
 func newBackends(cfg demuxCfg) []*recBackend {
@@ -853,7 +853,7 @@ func demuxFMSub(r *ev.Run, wiring string) {
 	}
 	n := len(cfgs) * nq
 	results := make([]res, n)
-	smp := &sampler{max: ev.Pick(r, 1, 1)}
+	smp := &sampler{max: 1}
 	par.For(n, func(k int) {
 		cfg, quad := cfgs[k/nq], quads[k%nq]
 		if alternate {
